@@ -158,7 +158,7 @@ def localReps (nNames : Nat) (exps : List Exp) (l : Loc) : List Rep :=
 
 mutual
 /-- traversal collecting every report (order of the Go traversal is not kept; compared as multisets) -/
-partial def pExp : Exp → List Rep
+def pExp : Exp → List Rep
   | .unop _ e _ => pExp e
   | .binop op a b l => pExp a ++ pExp b ++ binopReps op a b l
   | .table ks vs l => ks.flatMap pExp ++ vs.flatMap pExp ++ dupKeys ks l
@@ -167,13 +167,13 @@ partial def pExp : Exp → List Rep
   | .index p k _ => pExp p ++ pExp k
   | .call p _ a _ => pExp p ++ a.flatMap pExp
   | _ => []
-partial def pFunc : FuncBody → List Rep
+def pFunc : FuncBody → List Rep
   | .mk _ _ ps _ colon body _ =>
     -- the implicit self is part of ParList when the check runs
     dupParams ps ++ pBlock body
-partial def pBlock : Block → List Rep
+def pBlock : Block → List Rep
   | .mk ss ret _ => ss.flatMap pStat ++ (match ret with | some es => es.flatMap pExp | none => [])
-partial def pStat : Stat → List Rep
+def pStat : Stat → List Rep
   | .do_ b _ => pBlock b
   | .while_ c b _ => pExp c ++ pBlock b
   | .repeat_ b c _ => pBlock b ++ pExp c
